@@ -336,15 +336,11 @@ func runUDPLateEnd(idx, n int) (*udpTrace, error) {
 		rec.Add(vh.Ev{"e": "LoopEnd"})
 	case <-time.After(3 * time.Second):
 	}
-	before := countGoroutines("layer4.(*Server).handle")
 	close(release)
-	// every handler goroutine ends (a Close that blocks for ever on a notification nobody reads would keep it)
-	left := before
-	for k := 0; k < 300 && left > 0; k++ {
-		time.Sleep(10 * time.Millisecond)
-		left = countGoroutines("layer4.(*Server).handle")
-	}
-	rec.Add(vh.Ev{"e": "LateEnd", "handlers": before, "left": left})
+	// the handlers end; one that blocks for ever in Close (on a notification nobody reads any more) stays behind
+	time.Sleep(150 * time.Millisecond)
+	stuck := countGoroutines("layer4.(*packetConn).Close")
+	rec.Add(vh.Ev{"e": "LateEnd", "handlers": n, "stuckInClose": stuck})
 	return &udpTrace{ID: fmt.Sprintf("udpgate:lateend:%d", idx), Complete: true, Scen: map[string]any{"schedule": "handlers outlive the loop", "n": n}, Hist: rec.Snapshot()}, nil
 }
 
